@@ -1698,6 +1698,8 @@ BTree_maxminKey(BTree *self, PyObject *args, int min)
     {
         bucket = BTree_lastBucket(self);
         PER_UNUSE(self);
+        if (bucket == NULL)  /* a node on the way could not be loaded */
+            return NULL;
         UNLESS (PER_USE(bucket))
         {
             Py_DECREF(bucket);
@@ -1837,7 +1839,12 @@ BTree_rangeSearch(BTree *self, PyObject *args, PyObject *kw, char type)
     {
         int bucketlen;
         highbucket = BTree_lastBucket(self);
-        assert(highbucket != NULL);  /* we know self isn't empty */
+        /* self isn't empty, but a node on the way may fail to load */
+        if (highbucket == NULL)
+        {
+            Py_DECREF(lowbucket);
+            goto err;
+        }
         UNLESS (PER_USE(highbucket))
             goto err_and_decref_buckets;
         bucketlen = highbucket->len;
